@@ -1289,6 +1289,19 @@ func variants(root *refwire.Item) (res []*refwire.Item, labels []string) {
 	}
 	for _, p := range paths {
 		n := at(root, p)
+		if n.Type == 7 && n.Tag == int(kmip.TagAttributeName) && bytes.Contains(n.Raw, []byte(" ")) {
+			// attribute names that differ from a standard one by their spacing: whatever they are taken for, it is the same thing twice
+			for _, sp := range []struct{ label, with string }{{"spaces-doubled", "  "}, {"spaces-tripled", "   "}, {"spaces-times-five", "     "}} {
+				c := cloneItem(root)
+				x := at(c, p)
+				x.Raw = bytes.ReplaceAll(x.Raw, []byte(" "), []byte(sp.with))
+				res, labels = append(res, c), append(labels, fmt.Sprintf("%s:%s", sp.label, string(n.Raw)))
+			}
+			c := cloneItem(root)
+			x := at(c, p)
+			x.Raw = append(append([]byte("  "), x.Raw...), ' ')
+			res, labels = append(res, c), append(labels, "spaces-around:"+string(n.Raw))
+		}
 		if n.Type != 1 {
 			c := cloneItem(root)
 			if zeroLeaf(at(c, p)) {
